@@ -157,9 +157,11 @@ Print Assumptions C08_failed_statement_leaves_ready.
 (* what a statement does depends on the world only: two ready machines whose worlds agree (same global
    data, same input left; any code and data offsets, allocation counters, earlier output o1 / o2, dead
    stack contents) give the same value or error, write the same lines, and stay in agreement *)
-Theorem C08_statement_relocation : forall Bf t mc1 c1 m1 mc2 c2 m2 o1 o2 n W1' res,
+Theorem C08_statement_relocation : forall Bf,
+  (forall nm body, ft_body Bf nm = Some body -> nobe Bf body = true) ->
+  forall t mc1 c1 m1 mc2 c2 m2 o1 o2 n W1' res,
   bready Bf mc1 c1 m1 -> bready Bf mc2 c2 m2 ->
-  wstmt t = true -> CompileWf.wfb t = true -> nobs t = true ->
+  wstmt t = true -> CompileWf.wfb t = true -> nobs Bf t = true ->
   wrel Bf Bf o1 o2 (wof (mc_vm mc1)) (wof (mc_vm mc2)) ->
   ssem Bf n (wof (mc_vm mc1)) t = Some (W1', res) ->
   stuck (snd (run_tree false mc1 t)) \/ stuck (snd (run_tree false mc2 t)) \/
@@ -172,10 +174,12 @@ Print Assumptions C08_statement_relocation.
 
 (* so a session that saw failing statements and a twin that never did — any two sessions whose worlds
    agree — give every later statement the same value or error and the same output, for every history *)
-Theorem C08_twin_sessions_partial : forall Bf ts mc1 c1 m1 mc2 c2 m2 o1 o2,
+Theorem C08_twin_sessions_partial : forall Bf,
+  (forall nm body, ft_body Bf nm = Some body -> nobe Bf body = true) ->
+  forall ts mc1 c1 m1 mc2 c2 m2 o1 o2,
   bready Bf mc1 c1 m1 -> bready Bf mc2 c2 m2 ->
   wrel Bf Bf o1 o2 (wof (mc_vm mc1)) (wof (mc_vm mc2)) ->
-  Forall (fun t => wstmt t = true /\ CompileWf.wfb t = true /\ nobs t = true) ts ->
+  Forall (fun t => wstmt t = true /\ CompileWf.wfb t = true /\ nobs Bf t = true) ts ->
   twins Bf o1 o2 mc1 mc2 ts.
 Proof. exact twin_sessions. Qed.
 Print Assumptions C08_twin_sessions_partial.
